@@ -466,6 +466,11 @@ func (fr *frame) havocModifies(con *Contract, env *SpecEnv, old Mem) {
 	regs := env.regions(con)
 	byComp := map[string][]region{}
 	allocates := len(con.clauses("allocates")) > 0
+	for _, cl := range con.clauses("ensures") {
+		if strings.Contains(cl.Text, "fresh(") {
+			allocates = true // a contract that promises fresh objects allocates
+		}
+	}
 	for _, r := range regs {
 		if r.kind == "all" {
 			vc.havocAll(&fr.mem, false)
@@ -902,6 +907,11 @@ func (vc *VC) modsOfCall(c *ssa.CallCommon, pats map[string]bool, seen map[*ssa.
 		}
 		if len(con.clauses("allocates")) > 0 {
 			pats["brk"] = true
+		}
+		for _, cl := range con.clauses("ensures") {
+			if strings.Contains(cl.Text, "fresh(") {
+				pats["*"] = true
+			}
 		}
 		return
 	}
